@@ -5,10 +5,14 @@ Spec: spec/Handshake.tla - the handshake state machine (OptionsSent, StartupSent
       kind x compression setting x locally available algorithms; SUPPORTED carries the server's algorithms.
 TLC : exhaustive over all configurations x all reply sequences up to MaxLen; invariants
       ReadyOnlyAfterReadyOrAuthSuccess, OutcomeClasses, NegotiatedCommon, CompressorAfterAccept,
-      ChecksummingExactlyV5.
+      ChecksummingExactlyV5, FactoryReturnsOnlyAfterReady; a second, two-thread model (Fine) splits the failure
+      path into the steps of defunct()/close() and lets the thread blocked in Connection.factory wake up whenever
+      connected_event is set (NoEarlyWake; the EarlySet variant must violate the property).
 Bind: spec -> code: EVERY maximal behaviour of the state graph is replayed through the real Connection.factory
       on a SimConnection against a scripted server (harness/replay/handshake.py); after each reply the real
-      connection (factory's view, switches, every frame written, decoded independently) must equal the spec state.
+      connection (factory's view, switches, every frame written, decoded independently) must equal the spec state;
+      the connection's connected_event is wrapped so that at the very instant it is set the factory-side decision
+      (last_error recorded -> raise, else return the connection) is evaluated and compared with the spec's.
       code -> spec: seeded random scripted handshakes (longer, replies split into chunks) are recorded and
       validated by TLC against spec/Trace_Handshake.tla with the invariants on.
 """
@@ -29,7 +33,10 @@ META = {
                   "compression False/True/'lz4'/'snappy', each set of locally available algorithms) and checks the five "
                   "clauses of the statement as invariants. Each maximal behaviour is then executed on the real "
                   "Connection (through Connection.factory) and compared state by state, including the decoded bytes of "
-                  "every frame the connection wrote, so the model is the code's behaviour over that whole bounded domain.",
+                  "every frame the connection wrote, so the model is the code's behaviour over that whole bounded domain. "
+                  "The caller's thread (blocked in Connection.factory) is modelled too: TLC interleaves its wake-up with the "
+                  "individual steps of defunct()/close(), and the replay evaluates the factory-side decision at the very "
+                  "instant the real connected_event is set.",
     "level_note": "Trusted: TLC, the transcription of the statement into the invariants, harness/wire.py, SimConnection's "
                   "reactor contract (close() sets last_error during the handshake as the shipped reactors do), stand-in "
                   "lz4/snappy callables following the driver's calling convention. Bounds: reply sequences <= MaxLen "
@@ -38,7 +45,7 @@ META = {
 }
 
 INVARIANTS = ["TypeOK", "ReadyOnlyAfterReadyOrAuthSuccess", "OutcomeClasses", "NegotiatedCommon",
-              "CompressorAfterAccept", "ChecksummingExactlyV5"]
+              "CompressorAfterAccept", "ChecksummingExactlyV5", "FactoryReturnsOnlyAfterReady", "NoEarlyWake"]
 ACTIONS = ["AnyOptionsReply", "AnyStartupReply", "AnyAuthReply", "AnyProtoError", "Disconnect", "Silence", "Probe"]
 MAX_REPORT = 10
 WITNESSES = ["Witness_ReadyCompressedChecksummed", "Witness_AuthFailed", "Witness_ChallengeLoop",
@@ -84,6 +91,7 @@ def describe(path):
 def run(ctx):
     from harness.replay import handshake as hs
     consts = {"Versions": {1, 3, 4, 5}, "MaxLen": 5} if ctx.quick else {"Versions": {1, 2, 3, 4, 5, 6}, "MaxLen": 6}
+    consts.update(Fine=False, EarlySet=False)
     cfg = tlc.write_cfg(os.path.join(ctx.scratch, "hs.cfg"), constants=consts, invariants=INVARIANTS, deadlock=False)
     res, states = tlc.enumerate_states("Handshake", cfg, ctx.scratch, coverage=True, timeout=1500)
     ctx.add_tlc(res, "exhaustive %s" % (consts,))
@@ -97,13 +105,36 @@ def run(ctx):
     zero = [a for a in ACTIONS if cov.get(a, (0, 0))[1] == 0]
     if zero:
         raise tlc.MachineryError("actions never taken in the exhaustive model: %s" % zero)
-    wconsts = {"Versions": {1, 5}, "MaxLen": 4}       # reachable in a small model => reachable in the explored one
+    wconsts = {"Versions": {1, 5}, "MaxLen": 4, "Fine": False, "EarlySet": False}   # reachable in a small model => reachable in the explored one
     for w in WITNESSES:
         wcfg = tlc.write_cfg(os.path.join(ctx.scratch, w + ".cfg"), constants=wconsts, invariants=[w], deadlock=False)
         wres = tlc.check_model("Handshake", wcfg, ctx.scratch, timeout=600)
         if wres.invariant != w:
             raise tlc.MachineryError("vacuity witness %s not reachable" % w)
     ctx.note("vacuity_witnesses_reached", len(WITNESSES))
+
+    # ---- the two-thread model: failure path split into the steps of defunct()/close(), the thread blocked in
+    # Connection.factory waking up at any moment at which connected_event is set (same constants, TLC only;
+    # NoEarlyWake is what makes the atomic failure step of the replayed model sound)
+    fconsts = dict(consts, Fine=True)
+    fcfg = tlc.write_cfg(os.path.join(ctx.scratch, "hs_fine.cfg"), constants=fconsts, invariants=INVARIANTS, deadlock=False)
+    fres = tlc.check_model("Handshake", fcfg, ctx.scratch, coverage=True, timeout=1500)
+    ctx.add_tlc(fres, "exhaustive, failure path and factory wake-up interleaved (Fine)")
+    if fres.violation:
+        ctx.violation("TLC: invariant %s violated on Handshake.tla with the failure path interleaved with the factory thread"
+                      % fres.invariant, replay={"trace": [dict(s) for _, s in fres.trace()]}, signature="spec-fine:%s" % fres.invariant)
+        return
+    fcov = fres.coverage()
+    if not all(fcov.get(a, (0, 0))[1] for a in ("FailStep", "FactoryObserve")):
+        raise tlc.MachineryError("FailStep / FactoryObserve never taken in the fine model")
+    # the race is real in the model: with the event set before last_error is recorded the property must break
+    econsts = dict(wconsts, Fine=True, EarlySet=True)
+    ecfg = tlc.write_cfg(os.path.join(ctx.scratch, "hs_early.cfg"), constants=econsts,
+                         invariants=["FactoryReturnsOnlyAfterReady"], deadlock=False)
+    eres = tlc.check_model("Handshake", ecfg, ctx.scratch, timeout=600)
+    if eres.invariant != "FactoryReturnsOnlyAfterReady":
+        raise tlc.MachineryError("the early-set variant of the model does not violate FactoryReturnsOnlyAfterReady")
+    ctx.note("race_witness", "EarlySet model violates FactoryReturnsOnlyAfterReady as required")
 
     # ---- spec -> code: every maximal behaviour
     paths = behaviours(states, consts["MaxLen"])
@@ -146,7 +177,7 @@ def run(ctx):
         raise tlc.MachineryError("binding self-test failed: corrupted expectation not detected by replay")
 
     # ---- code -> spec: recorded random handshakes validated by TLC
-    tconsts = {"Versions": {1, 2, 3, 4, 5, 6}, "MaxLen": 12}
+    tconsts = {"Versions": {1, 2, 3, 4, 5, 6}, "MaxLen": 12, "Fine": False, "EarlySet": False}
     n_tr = 400 if ctx.quick else 5000
     traces = [hs.record(ctx.rng, tconsts["Versions"], 10) for _ in range(n_tr)]
     good = len(traces)
@@ -215,6 +246,7 @@ def replay(ctx, obj):
     for i, o in enumerate(run["obs"]):
         print("after reply %d %s:" % (i, replies[i - 1] if i else "-"), o)
     print("factory:", run["factory"], run["factory_exc"])
+    print("factory-side decision at the instant connected_event was set:", run.get("wakes"))
     if run["probe"]:
         print("after probe:", run["probe"])
     if obj.get("divergence"):
@@ -223,5 +255,7 @@ def replay(ctx, obj):
         seen = run["probe"] if obj["divergence"]["action"].get("k") == "Probe" else \
             (run["obs"][obj["divergence"]["step"]] if obj["divergence"]["step"] < len(run["obs"]) else run["final"])
         still = [k for k in d if k in seen and d[k].get("spec") != seen[k]]
+        if "wake" in d and run.get("wakes") and run["wakes"][0] != d["wake"]["spec"]:
+            still.append("wake")
         if still or "factory" in d:
             ctx.violation("replayed: still differs in %s" % (still or ["factory"]), replay=obj)
